@@ -66,7 +66,7 @@ def run_probes(o, fdir, tier, nonce, out):
                                 'msg': 'the name recorded for `%s` is `%s`, which rustc does not accept as that type in generated-code context: %s %s' % (p['type'], p['printed'], code, text),
                                 'key': 'W-C17|%s' % p['type']})
     floor = 250 if tier != 'thorough' else 1000
-    if len(probes) < floor:
+    if len(probes) < floor and d.get('printer_panic') is None:      # (a panic of the printer is reported as a C17 finding above)
         out['errors'].append('type-name probes: only %d probes (floor %d)' % (len(probes), floor))
     out['evidence']['C17'] = {'count': len(probes), 'failed': len(bad),
                               'samples': [{'type': p['type'], 'printed': p['printed'], 'verdict': 'rustc: same type' if p['probe'] not in bad else 'rejected'} for p in probes[::max(1, len(probes) // 8)]][:8],
